@@ -93,7 +93,7 @@ ASSUMPTIONS = [
     "duration = stored duration rounded to ms), $Number$ and SegmentTimeline/$Time$ addressing, manifest hand_made.mpd "
     "(the only multi-period template)",
     "stored tracks satisfy C02's H1/H2: every segment starts inside the timing-reference duration and has a positive duration",
-    "stored tracks have first decode time 0 and tfdt = sum of earlier durations (all fixture and synthetic tracks)",
+    "stored tracks have first decode time 0 (the theorems give st + t; st != 0 is the open ledger entry D25, stream syn6) and tfdt = st + sum of earlier durations",
     "firstAvailableTime < 2^53 us and offset*timescale < 2^53 (float steps exact / as evaluated by the driver)",
     "Period pids are unique within a stream (DB constraint single_period_id_per_mp_stream)",
 ]
@@ -125,6 +125,66 @@ def iso(dt):
 def parse_now(s):
     from dashlive.utils.date_time import from_isodatetime
     return from_isodatetime(s)
+
+
+# ------------------------------------------------------------------ fixed grids (CHECKLIST.md)
+
+FIXED_CLOCKS = [
+    "2024-02-29T23:59:59.999999Z", "2024-03-01T00:00:00Z", "2024-03-01T00:00:00.000001Z",
+    "2023-02-28T23:59:59.499999Z", "2023-12-31T23:59:59.500000Z", "2024-01-01T00:00:00.250000Z",
+    "2024-01-01T00:00:01Z", "2025-06-15T12:00:00.750000Z", "2036-02-07T06:28:16Z",
+    "2038-01-19T03:14:08.999999Z", "2100-03-01T00:01:00Z", "1970-01-02T00:00:05Z",
+]
+
+
+def fixed_period_defs(c12_lib):
+    P = c12_lib.PDef
+    return [
+        # sub-ms durations whose rounded values do not add up to the rounded total (8.0004 + 12.0004)
+        c12_lib.Defn([P("p1", "bbb", 4_000_000, 8_000_400, [1, 2]), P("p2", "tears", 8_000_000, 12_000_400, [1, 2])]),
+        # fractions on both sides of the rounding half-way point, pids that look like loop suffixes
+        c12_lib.Defn([P("p", "syn1", 0, 10_000_499, [1]), P("p_1", "bbb", 500_000, 10_000_500, [1, 3]),
+                      P("p_1_1", "syn2", 250, 10_000_501, [1, 2]), P("1", "tears", 0, 999_500, [1])]),
+        # a single whole-second Period
+        c12_lib.Defn([P("x" * 60, "syn8", 0, 4_000_000, [1, 2])]),
+    ]
+
+
+def fixed_live_runs(defn, depth=30):
+    """[(query, now)] – every start kind and the stream ages 0, 1 s, depth-1, depth, depth+1, and
+    firstAvailableTime exactly on / 1 us around a loop boundary after 1 and 10^5 loops, at FIXED_CLOCKS"""
+    out = []
+    D = defn.total_us()
+    for i, c in enumerate(FIXED_CLOCKS):
+        now = parse_now(c)
+        kinds = ["today", "month", "year", "epoch", "now"]
+        out.append(([f"start={kinds[i % 5]}", f"depth={depth}"], now))
+        out.append(([f"start={kinds[(i + 2) % 5]}"] + ([f"depth={depth}"] if i % 3 else []), now))
+        ages = [0, 1, depth - 1, depth, depth + 1, 86400]
+        age = ages[i % len(ages)]
+        st = (now - datetime.timedelta(seconds=age)).replace(microsecond=0)
+        if st.year >= 1970:
+            out.append((["start=" + st.strftime("%Y-%m-%dT%H:%M:%SZ"), f"depth={depth}"], now))
+    for m in (1, 100_000):
+        for delta in (-1, 0, 1):
+            ast = parse_now("2024-05-05T05:05:05Z")
+            now = ast + datetime.timedelta(microseconds=m * D + delta, seconds=depth)
+            out.append((["start=2024-05-05T05:05:05Z", f"depth={depth}"], now))
+    return out
+
+
+def class_state():
+    """repr of class-level mutable attributes of the classes behind a multi-period manifest"""
+    from dashlive.server.requesthandler.manifest_context import ManifestContext
+    from dashlive.mpeg.dash.representation import Representation
+    from dashlive.mpeg.dash.adaptation_set import AdaptationSet
+    from dashlive.mpeg.dash.period import Period
+    out = {}
+    for cls in (ManifestContext, Representation, AdaptationSet, Period):
+        for k, v in vars(cls).items():
+            if isinstance(v, (dict, list, set)) and not k.startswith("__"):
+                out[f"{cls.__name__}.{k}"] = repr(v)[:2000]
+    return out
 
 
 # ------------------------------------------------------------------ channel `periods`
@@ -195,7 +255,22 @@ def ch_periods(ctx) -> Channel:
     rng = ctx.rng("periods")
     lines, recs = [], []
     with appboot.Clock("2023-01-01T00:00:00Z") as clock, c12_lib.Capture(app) as cap:
-        for _ in range(ctx.scale(110, 700)):
+        # fixed grid (not seed dependent): fixed definitions x fixed clocks / start kinds / stream ages
+        for defn in fixed_period_defs(c12_lib):
+            c12_lib.create(app, defn)
+            try:
+                runs = [("vod", [], parse_now(FIXED_CLOCKS[0]))] + [("live", q, now) for q, now in fixed_live_runs(defn)]
+                for mode, q, now in runs:
+                    line, impl, fail, b, url = periods_case(app, client, clock, cap, c12_lib, defn, mode, q, now)
+                    ch.count(f"fixed-grid:{mode}:status={b.status}")
+                    if line is None:
+                        ch.errors.append(f"manifest {url} at {iso(now)} answered {b.status}")
+                        continue
+                    lines.append(line)
+                    recs.append(({"defn": defn.json(), "mode": mode, "query": q, "now": iso(now)}, impl, fail, b))
+            finally:
+                c12_lib.delete(app, defn)
+        for _ in range(ctx.scale(70, 700)):
             defn = c12_lib.gen_builder_only(rng, app) if rng.random() < .75 else c12_lib.gen_inside(rng, app)
             c12_lib.create(app, defn)
             try:
@@ -357,8 +432,8 @@ def oracle_period_media(c12_lib, track, start_us, sn, fetches, admitted_n, what)
         return {"kind": "wrong-source-segment", "k": 0, "request": f0["url"],
                 "what": f"{what}: number {sn} delivers stored segment {sorted(src_set(track, f0['sha']))}, "
                         f"nearest start(s) to the offset: {sorted(cands)}"}
-    if f0["tfdt"] != track.st:
-        return {"kind": "decode-time-not-zero", "k": 0, "request": f0["url"],
+    if f0["tfdt"] != 0:
+        return {"kind": "decode-time-not-zero", "k": 0, "request": f0["url"], "first_decode_time": track.st,
                 "what": f"{what}: first number served with baseMediaDecodeTime {f0['tfdt']}"}
     fail = None
     for i0 in options:          # more than one only when a payload is stored twice
@@ -442,7 +517,7 @@ def oracle_period_timeline(c12_lib, track, start_us, sn, entries, fetches, dur_u
             elif i0 + j not in src_set(track, f["sha"]):
                 fail = {"kind": "wrong-source-segment", "j": j, "request": f["url"],
                         "what": f"{what}: $Time$={t} delivers stored segment {sorted(src_set(track, f['sha']))}, expected {i0 + j}"}
-            elif f["tfdt"] != track.st + t or f["total"] != d:
+            elif f["tfdt"] != t or f["total"] != d:
                 fail = {"kind": "timeline-mismatch", "j": j, "request": f["url"],
                         "what": f"{what}: listed S t={t} d={d}, served tfdt={f['tfdt']} duration={f['total']}"}
             if fail:
@@ -463,37 +538,51 @@ def oracle_period_timeline(c12_lib, track, start_us, sn, entries, fetches, dur_u
 
 # ------------------------------------------------------------------ channel `mps_offsets`
 
-def sweep_offsets(tracks: dict, limit, rng):
-    """source offsets (µs) at every segment start / half point of every track, ±1 µs, ±1 ms"""
-    offs = set()
-    for t in tracks.values():
+BIG_VALUES = [2 ** 31 - 1, 2 ** 31, 2 ** 32 + 1, 2 ** 33 - 1, 2 ** 53 + 1, 2 ** 63 - 1, 2 ** 64, 10 ** 30]
+
+
+def sweep_offsets(tracks: dict, thorough: bool):
+    """[(offset_us, name of the track it was derived from)] – deterministic, stratified per track.
+    quick: for segments 0, 1, the middle one and the last of every clear track the start, the half-segment
+    point (where the nearest start flips) and the tick after it, with -1/0/+1 us around the half point, plus
+    the exact end of the track and a point beyond it.  thorough: every segment, +-1 us and +1 ms around
+    every point."""
+    out = []
+    for name, t in sorted(tracks.items()):
         if t.encrypted:
             continue
-        p = 0
-        for d in t.durs:
-            for tick in (p, p + d // 2, p + d // 2 + 1, p + d - 1):
+        n = len(t.durs)
+        starts = _starts(t)
+        segs = range(n) if thorough else sorted({0, min(1, n - 1), n // 2, n - 1})
+        offs = set()
+        for j in segs:
+            p, d = starts[j], t.durs[j]
+            for tick, deltas in ((p, (0, 1000) if thorough else (0,)),
+                                 (p + d // 2, (-1, 0, 1)),
+                                 (p + d // 2 + 1, (0, 1000) if thorough else (0,)),
+                                 (p + d - 1, (0, 1) if thorough else ())):
                 us = tick * 1_000_000 // t.ts
-                for delta in (-1, 0, 1, 1000):
+                for delta in deltas:
                     if us + delta >= 0:
                         offs.add(us + delta)
-            p += d
-        offs.add(p * 1_000_000 // t.ts)            # exactly the end of the track
-        offs.add(p * 1_000_000 // t.ts + 2_500_000)  # beyond the end
-    offs = sorted(offs)
-    if limit and len(offs) > limit:
-        keep = {offs[0], offs[-1], offs[-2]}
-        keep |= set(rng.sample(offs, limit - len(keep)))
-        offs = sorted(keep)
-    return offs
+        end = sum(t.durs) * 1_000_000 // t.ts
+        offs |= {end, end + 2_500_000}
+        out += [(o, name) for o in sorted(offs)]
+    return out
 
 
-def offsets_case(app, client, c12_lib, segwalk, mp4walk, stream, offsets, mode="vod", foreign=None):
+def offsets_case(app, client, c12_lib, segwalk, mp4walk, stream, offsets, mode="vod", foreign=None,
+                 all_files=True, big=False):
     """one sweep stream: a Period per offset; → list of (track, start_us, {k: fetch}, extra fetches)"""
     import segchecks
     trk = {n: t for n, t in segchecks.tracks(app, stream).items() if not t.encrypted}
     tids = sorted(c12_lib.TRACKS[stream])
+    offsets = [o if isinstance(o, tuple) else (o, None) for o in offsets]
+    ref_video = sorted(n for n, t in trk.items() if t.content_type == "video")[0]
     defn = c12_lib.Defn([c12_lib.PDef(pid=f"o{i}", stream=stream, start_us=o, duration_us=4_000_000, tracks=tids)
-                         for i, o in enumerate(offsets)])
+                         for i, (o, _) in enumerate(offsets)])
+    wanted = {f"o{i}": (None if (src is None or all_files) else {src, ref_video})
+              for i, (o, src) in enumerate(offsets)}
     c12_lib.create(app, defn)
     out = []
     try:
@@ -513,6 +602,8 @@ def offsets_case(app, client, c12_lib, segwalk, mp4walk, stream, offsets, mode="
         for p in defn.periods:
             base = f"/mps/{mode}/{defn.name}/{defn.pks[p.pid]}/"
             for name, t in sorted(trk.items()):
+                if wanted[p.pid] is not None and name not in wanted[p.pid]:
+                    continue
                 ext = ext_of(t)
                 n = len(t.durs)
                 f1 = fetch_media(client, segwalk, mp4walk, f"{base}{name}/{t.sn}.{ext}")
@@ -520,14 +611,19 @@ def offsets_case(app, client, c12_lib, segwalk, mp4walk, stream, offsets, mode="
                 ks = {0: f1}
                 want = [1]
                 if i0 is not None:
-                    want += [n - i0 - 1, n - i0]
+                    want += [n - i0 - 1, n - i0, n - i0 + 1]      # last, last+1, last+2
+                if big and p is defn.periods[0]:
+                    want += BIG_VALUES
                 for k in sorted(set(want)):
                     if k > 0:
                         ks[k] = fetch_media(client, segwalk, mp4walk, f"{base}{name}/{t.sn + k}.{ext}")
                 below = fetch_media(client, segwalk, mp4walk, f"{base}{name}/{t.sn - 1}.{ext}") if t.sn >= 1 else None
                 # $Time$ addressing (fix 3d7a0df): period-relative times 0, one segment on, far beyond the end
                 times = {}
-                for tm in sorted({0, t.durs[min(i0 or 0, n - 1)], t.durs[0] // 2 + 1, sum(t.durs) + 7}):
+                tms = {0, t.durs[min(i0 or 0, n - 1)], t.durs[0] // 2 + 1, sum(t.durs) + 7}
+                if big and p is defn.periods[0]:
+                    tms |= set(BIG_VALUES)
+                for tm in sorted(tms):
                     times[tm] = fetch_media(client, segwalk, mp4walk, f"{base}{name}/time/{tm}.{ext}")
                 out.append((t, p.start_us, ks, below, times))
     finally:
@@ -538,10 +634,14 @@ def offsets_case(app, client, c12_lib, segwalk, mp4walk, stream, offsets, mode="
 def ch_offsets(ctx) -> Channel:
     ch = Channel("mps_offsets", rule=(
         "per stream (bbb: 2 video, 2 audio 44.1 kHz vs 240 Hz reference, 1 text; tears: 48 kHz audio; syn1 "
-        "irregular durations; syn2 90 kHz, audio without tfdt) one multi-period stream with a Period at every "
-        "segment start / half-segment point / end of every track (+-1 us, +1 ms, beyond the end); for every clear "
-        "media file numbers sn, sn+1, last, one past the last, sn-1 and $Time$ = 0 / one segment on / half a "
-        "segment / beyond the end are requested from the real app; status, "
+        "irregular durations; syn2 90 kHz, audio without tfdt; syn3/syn5 fragments numbered from 7/0; syn4 audio "
+        "reference; syn7 NTSC; syn8 two segments; syn9 very long + short segment, stored stream defaults) one "
+        "multi-period stream with a Period at a FIXED grid of source offsets per track: start, half-segment point "
+        "-1/0/+1 us and the tick after it for segments 0, 1, middle, last (thorough: every segment, +1 ms), the "
+        "exact end and beyond it; for the track the offset was derived from and the reference video (thorough: "
+        "every clear file) numbers sn, sn+1, last, last+1, last+2, sn-1, 2^31-1 .. 2^64, 10^30 and $Time$ = 0 / "
+        "one segment on / half a segment / beyond the end / the same huge values are requested from the real "
+        "app; status, "
         "delivered stored segment (mdat sha1), tfdt and mfhd compared with the model (mpsreq); Layer C: nearest "
         "start in exact rationals, decode time 0 and gapless, one past the end 404. Non-trivial = 200 answer for "
         "an offset that is not a segment start of that track; distinct by (stream, file, offset, number)"))
@@ -553,10 +653,15 @@ def ch_offsets(ctx) -> Channel:
     with appboot.Clock("2024-03-01T10:00:00Z"):
         for stream in c12_lib.STREAMS:
             trk = segchecks.tracks(app, stream)
-            offs = sweep_offsets(trk, ctx.scale(22, 180), rng)
-            mode = rng.choice(["vod", "live"])
+            offs = sweep_offsets(trk, ctx.thorough)
+            if ctx.thorough and len(offs) > 260:
+                keep = set(sweep_offsets(trk, False))
+                rest = [o for o in offs if o not in keep]
+                offs = sorted(keep | set(rng.sample(rest, 260 - len(keep))))
+            mode = ["vod", "live"][(c12_lib.STREAMS.index(stream) + ctx.seed) % 2]
             foreign = []
-            cases = offsets_case(app, client, c12_lib, segwalk, mp4walk, stream, offs, mode, foreign)
+            cases = offsets_case(app, client, c12_lib, segwalk, mp4walk, stream, offs, mode, foreign,
+                                 all_files=ctx.thorough, big=True)
             for u, st in foreign:
                 ch.evaluations += 1
                 ch.count(f"foreign-period:status={st}")
@@ -592,7 +697,8 @@ def ch_offsets(ctx) -> Channel:
         if isinstance(k, tuple):
             ch.count(f"$Time$:status={f['status']}")
         else:
-            ch.count(f"k={'below' if k < 0 else 'first' if k == 0 else 'later'}:status={f['status']}")
+            ch.count(f"k={'below' if k < 0 else 'first' if k == 0 else 'huge' if k >= 2 ** 31 - 1 else 'later'}"
+                     f":status={f['status']}")
         on_boundary = any(start_us * t.ts == p * 1_000_000 for p in _starts(t))
         if f["status"] == 200 and not on_boundary:
             ch.nontrivial.add((t.stream, t.name, start_us, k))
@@ -718,7 +824,13 @@ def e2e_case(app, client, clock, c12_lib, defn, mode, query, now, rng, per_perio
 
 def ch_e2e(ctx) -> Channel:
     ch = Channel("mps_e2e", rule=(
-        "generated multi-period definitions inside the proved hypotheses (1..4 periods over bbb/tears/syn1/syn2, "
+        "FIXED grids first (not seed dependent): (a) each of the 10 streams x {$Number$, SegmentTimeline} x {vod, "
+        "live}: an off-boundary Period of the longest fitting sub-ms duration + a Period from the stream start; "
+        "(b) one option at a time (abr, base, mup, events, acodec, depth=0, timeline=0, leeway=0, drm=all, patch, "
+        "utc, start=epoch) on a fixed definition; (c) history: two multi-period streams whose Periods share pid and "
+        "media but differ in offset/duration requested alternately with other streams/modes/clocks in between, a "
+        "repeated URL must be answered as the first time, then a Period edited in place. Then "
+        "generated multi-period definitions inside the proved hypotheses (1..4 periods over the 10 streams, "
         "source offsets on/off segment boundaries and around half-segment points, whole-ms durations up to the "
         "longest that fits, track subsets that contain the video track) created through the DB models; vod and "
         "live manifests (start=epoch|now|today|month|year|explicit, depths 5..1800 s, clocks 2021..2038) parsed "
@@ -731,8 +843,96 @@ def ch_e2e(ctx) -> Channel:
     app, client, appboot, segchecks, c12_lib = _env()
     rng = ctx.rng("mps_e2e")
     lines, recs, tl_lines, tl_recs = [], [], [], []
+    def take(defn, mode, q, now, tag, exhaustive=False):
+        records, failures, stats = e2e_case(app, client, clock, c12_lib, defn, mode, q, now, rng,
+                                            per_period=ctx.scale(3, 5), max_periods=ctx.scale(4, 7),
+                                            exhaustive=exhaustive)
+        ch.count(f"{tag}:{mode}:{'timeline' if 'timeline=1' in q else 'number'}")
+        for t, p, raw in stats.get("timelines", []):
+            tl_lines.append(f"mpstimeline {t.durs_arg()} {t.R} {t.ts} {t.ref_ts} {p.start_us} {p.duration_us}")
+            tl_recs.append((t, p, timeline_str(raw), mode, iso(now)))
+        for f in failures:
+            ch.oracle_failures.append({**f, "tag": tag})
+        for t, start_us, (kind, val), f in records:
+            lines.append(model_line(t, start_us, kind, val))
+            recs.append((t, start_us, (kind, val), f, mode, iso(now), defn.name, defn.json(), list(q)))
+        return stats
+
+    state0 = class_state()
     with appboot.Clock("2023-01-01T00:00:00Z") as clock:
-        for i in range(ctx.scale(14, 70)):
+        fixed_now = parse_now("2024-03-01T10:00:07.250000Z")
+        live_q = ["start=2024-03-01T09:58:00Z", "depth=30"]
+        # (a) every stream x addressing x mode: an off-boundary Period of the longest fitting (sub-ms) duration
+        #     followed by a Period from the start of the same stream
+        for stream in c12_lib.STREAMS:
+            trk = segchecks.tracks(app, stream)
+            v = sorted((n, t) for n, t in trk.items() if t.content_type == "video" and not t.encrypted)[0][1]
+            off = (v.durs[0] * 1_000_000 // v.ts) // 2 + 137_000
+            tids = sorted(c12_lib.TRACKS[stream])
+            mx = c12_lib.max_fit_us(app, stream, tids, off)
+            mx0 = c12_lib.max_fit_us(app, stream, tids, 0)
+            defn = c12_lib.Defn([c12_lib.PDef("p1", stream, off, max(1000, mx) + 499, tids),
+                                 c12_lib.PDef("p2", stream, 0, max(1000, mx0 // 2000 * 1000) - 500, tids)])
+            c12_lib.create(app, defn)
+            try:
+                for mode, q in (("vod", []), ("vod", ["timeline=1"]), ("live", live_q), ("live", live_q + ["timeline=1"])):
+                    take(defn, mode, q, fixed_now, "grid")
+            finally:
+                c12_lib.delete(app, defn)
+        # (b) option vector: each option on its own on a fixed two-Period definition
+        defn = c12_lib.Defn([c12_lib.PDef("p1", "bbb", 4_200_000, 12_000_000, [1, 2, 3]),
+                             c12_lib.PDef("p2", "tears", 9_000_000, 8_000_000, [1, 2])])
+        c12_lib.create(app, defn)
+        try:
+            for opt in ("abr=0", "base=0", "mup=-1", "mup=8", "events=ping", "acodec=mp4a", "depth=0", "timeline=0",
+                        "leeway=0", "drm=all", "patch=1", "utc=direct", "start=epoch"):
+                base_q = [x for x in live_q if x.split("=")[0] != opt.split("=")[0]]
+                take(defn, "live", base_q + [opt], fixed_now, "option")
+                if opt.split("=")[0] in ("abr", "base", "events", "acodec", "drm", "timeline"):
+                    take(defn, "vod", [opt], fixed_now, "option")
+        finally:
+            c12_lib.delete(app, defn)
+        # (c) history: two multi-period streams whose Periods share pid and media but differ in offset and
+        #     duration, requested alternately (timeline and number), then one of them edited in place; other
+        #     streams, other modes and a second clock in between; a repeated request must give the first answer
+        A = c12_lib.Defn([c12_lib.PDef("p1", "syn1", 6_000_000, 8_000_000, [1, 2]), c12_lib.PDef("p2", "bbb", 4_000_000, 8_000_000, [1, 2])])
+        B = c12_lib.Defn([c12_lib.PDef("p1", "syn1", 0, 14_000_000, [1, 2]), c12_lib.PDef("p2", "bbb", 12_500_000, 20_000_000, [1, 2])])
+        c12_lib.create(app, A)
+        c12_lib.create(app, B)
+        try:
+            first = {}
+            for rnd in range(2):
+                for d in (A, B):
+                    for mode, q in (("vod", ["timeline=1"]), ("live", live_q + ["timeline=1"]), ("vod", [])):
+                        take(d, mode, q, fixed_now, "history", exhaustive=True)
+                        url = f"/mps/{mode}/{d.name}/{MANIFEST}" + ("?" + "&".join(q) if q else "")
+                        clock.set(fixed_now)
+                        body = client.get(url).data
+                        if first.setdefault(url, body) != body:
+                            ch.oracle_failures.append({
+                                "channel": "mps_e2e", "kind": "answer-changed", "defn": d.json(), "mode": mode,
+                                "query": q, "now": iso(fixed_now), "tag": "history",
+                                "what": "the same manifest URL at the same clock is answered differently after other requests"})
+                    # other streams / modes / clocks in between
+                    clock.set(parse_now("2031-07-07T07:07:07.5Z"))
+                    client.get("/dash/live/tears/hand_made.mpd?timeline=1")
+                    client.get("/dash/vod/syn1/hand_made.mpd?timeline=1")
+                    client.get(f"/mps/live/{d.name}/{MANIFEST}?timeline=1&depth=20")
+            # edit B in place: Period p1 now plays another part of the same file
+            B.periods[0].start_us, B.periods[0].duration_us = 8_000_000, 5_000_000
+            with app.ctx() as models:
+                row = models.Period.get(pk=B.pks["p1"])
+                row.start, row.duration = c12_lib.td(8_000_000), c12_lib.td(5_000_000)
+                models.db.session.commit()
+            for mode, q in (("vod", ["timeline=1"]), ("live", live_q + ["timeline=1"]), ("vod", []), ("live", live_q)):
+                take(B, mode, q, fixed_now, "history-edited", exhaustive=True)
+        finally:
+            c12_lib.delete(app, A)
+            c12_lib.delete(app, B)
+        changed = sorted(k for k, v in class_state().items() if state0.get(k) != v)
+        for k in changed:
+            ch.count(f"class-level state changed: {k}")
+        for i in range(ctx.scale(8, 70)):
             defn = c12_lib.gen_inside(rng, app, n_periods=[1, 2, 3, 4, 2, 3, 2][i % 7])
             c12_lib.create(app, defn)
             try:
@@ -749,20 +949,9 @@ def ch_e2e(ctx) -> Channel:
                 runs += [(m, q + ["timeline=1"], c12_lib.gen_clock(rng) if m == "vod" else nw)
                          for m, q, nw in list(runs) if rng.random() < .6]
                 for mode, q, now in runs:
-                    records, failures, stats = e2e_case(
-                        app, client, clock, c12_lib, defn, mode, q, now, rng,
-                        per_period=ctx.scale(3, 5), max_periods=ctx.scale(4, 7))
-                    ch.count(f"{mode}:{'timeline' if 'timeline=1' in q else 'number'}:manifests")
-                    for t, p, raw in stats.get("timelines", []):
-                        tl_lines.append(f"mpstimeline {t.durs_arg()} {t.R} {t.ts} {t.ref_ts} {p.start_us} {p.duration_us}")
-                        tl_recs.append((t, p, timeline_str(raw), mode, iso(now)))
+                    stats = take(defn, mode, q, now, "random")
                     n = stats.get("periods", 0)
                     ch.count(f"{mode}:periods={'1' if n == 1 else '2-4' if n <= 4 else '5-20' if n <= 20 else '>20'}")
-                    for f in failures:
-                        ch.oracle_failures.append(f)
-                    for t, start_us, (kind, val), f in records:
-                        lines.append(model_line(t, start_us, kind, val))
-                        recs.append((t, start_us, (kind, val), f, mode, iso(now), defn.name))
             finally:
                 c12_lib.delete(app, defn)
     for (t, p, impl, mode, now), mo, line in zip(tl_recs, _driver(ch, tl_lines), tl_lines):
@@ -772,9 +961,10 @@ def ch_e2e(ctx) -> Channel:
             ch.nontrivial.add((line, mode, now))
         if mo is not None and mo != impl:
             ch.disagreements.append({"line": line[:300], "file": t.name, "period": p.json(), "mode": mode,
-                                     "model": mo[:300], "impl": impl[:300]})
+                                     "model": mo[:300], "impl": impl[:300],
+                                     "defn": {"periods": [p.json()]}, "query": ["timeline=1"], "now": now})
     model = _driver(ch, lines)
-    for (t, start_us, num, f, mode, now, name), mo, line in zip(recs, model, lines):
+    for (t, start_us, num, f, mode, now, name, djs, dq), mo, line in zip(recs, model, lines):
         ch.evaluations += 1
         impl = impl_str(t, f, mo)
         ch.count(f"media:{'$Time$' if num[0] == 't' else '$Number$'}:status={f['status']}")
@@ -786,7 +976,8 @@ def ch_e2e(ctx) -> Channel:
             ch.nontrivial.add((name, mode, now, t.name, num))
         if mo is not None and mo != impl:
             ch.disagreements.append({"line": line[:300], "file": t.name, "start_us": start_us, "request": list(num),
-                                     "mode": mode, "model": mo, "impl": impl, "url": f["url"]})
+                                     "mode": mode, "model": mo, "impl": impl, "url": f["url"],
+                                     "defn": djs, "query": dq, "now": now})
         ch.sample({"file": t.name, "start_us": start_us, "request": list(num), "impl": impl}, limit=4)
     return ch
 
@@ -866,7 +1057,58 @@ def replay_finding(ctx, finding):
 
 
 def search(ctx, disagreements):
+    """Layer C on the disagreeing inputs first (their whole definition, every Period / Representation /
+    number), then a wider seeded sweep.  Open ledger findings are never returned."""
     import types
+    import random
+    app, client, appboot, segchecks, c12_lib = _env()
+    import segwalk
+    import mp4walk
+    seen = set()
+    for d in disagreements[:12]:
+        try:
+            if d.get("defn") and d.get("now"):
+                key = json.dumps([d["defn"], d["mode"], d.get("query")], sort_keys=True)
+                if key in seen:
+                    continue
+                seen.add(key)
+                defn = c12_lib.Defn.from_json(d["defn"])
+                c12_lib.create(app, defn)
+                try:
+                    now = parse_now(d["now"])
+                    with appboot.Clock(now) as clock, c12_lib.Capture(app) as cap:
+                        _, _, fail, _, _ = periods_case(app, client, clock, cap, c12_lib, defn, d["mode"],
+                                                        d.get("query", []), now)
+                        if fail:
+                            return {**fail, "channel": "periods", "defn": d["defn"], "mode": d["mode"],
+                                    "query": d.get("query", []), "now": d["now"]}
+                        if all(c12_lib.max_fit_us(app, p.stream, p.tracks, p.start_us) >= c12_lib.quantise(p.duration_us)
+                               for p in defn.periods):
+                            _, failures, _ = e2e_case(app, client, clock, c12_lib, defn, d["mode"], d.get("query", []),
+                                                      now, random.Random(0), 99, 99, exhaustive=True)
+                            if failures:
+                                return failures[0]
+                finally:
+                    c12_lib.delete(app, defn)
+            elif d.get("stream") and "start_us" in d:
+                key = (d["stream"], d["start_us"])
+                if key in seen:
+                    continue
+                seen.add(key)
+                with appboot.Clock("2024-03-01T10:00:00Z"):
+                    res = offsets_case(app, client, c12_lib, segwalk, mp4walk, d["stream"], [d["start_us"]],
+                                       d.get("mode", "vod"))
+                for t, start_us, ks, below, times in res:
+                    last_half = (sum(t.durs[:-1]) + t.durs[-1] // 2) * 1_000_000
+                    if start_us * t.ts + 2 * 1_000_000 * (2 + -(-t.ts // t.ref_ts)) <= last_half and \
+                            start_us * t.ref_ts < t.ref_dur * 1_000_000:
+                        fail = oracle_period_media(c12_lib, t, start_us, t.sn, ks, None,
+                                                   f"{d['stream']}/{t.name} offset {start_us}us")
+                        if fail:
+                            return {**fail, "channel": "mps_offsets", "stream": d["stream"], "file": t.name,
+                                    "start_us": start_us, "mode": d.get("mode", "vod")}
+        except Exception as e:      # a disagreeing case that cannot be re-run is not a reason to stop searching
+            common.log(f"[C12] search: could not re-run a disagreeing case: {type(e).__name__}: {e}")
     for delta in (7919,):
         c2 = types.SimpleNamespace(tier="thorough", thorough=True, seed=ctx.seed + delta, prop=PROP,
                                    rng=lambda name, d=delta: common.rng_for(ctx.seed + d, name),
